@@ -6,7 +6,7 @@
    ANY list of thread choices (P p | C); a chosen thread without an enabled step idles.
    Common premise [claims s < two64]: fewer than 2^64 fetch-adds happened (the uint64
    counter has not wrapped), needed because a bucket is identified by its seq. *)
-From Verif Require Import Base.Prelude Lts.Diode Lts.Waiter Proofs.DiodeP Proofs.WaiterInvP Proofs.WaiterP.
+From Verif Require Import Base.Prelude Lts.Diode Lts.Waiter Proofs.DiodeP Proofs.DiodeSoloP Proofs.DiodeOrderP Proofs.WaiterInvP Proofs.WaiterP.
 From Coq Require Import Permutation Sorted.
 Open Scope N_scope.
 
@@ -34,6 +34,21 @@ Theorem C10_producer_enabled_writer : forall w p,
   prod_unfinished w p = true -> enabled w (TProd p) = true.
 Proof. exact producer_enabled_writer. Qed.
 
+(* Solo progress: from ANY reachable state, let only producer p and the consumer run (the
+   other producers are paused wherever they are, the wrapped writer never has to move).
+   If during that window p has neither completed a Write nor run out of work, it has taken at
+   most 3*size + 5 steps: the consumer can make at most [size] of p's CASes fail (each failure
+   costs one non-empty slot), and the newer-test can fire at most once (for a position claimed
+   before the window).  So p's current Set returns within 3*size + 6 of p's own steps. *)
+Theorem C10_solo_bound : forall n ps sched0 p sched, (0 < n)%nat ->
+  let s := run n ps sched0 in
+  Forall (only p) sched -> let s' := exec s sched in
+  claims s' < two64 ->
+  pdone (nth p (prods s') (PIdle [])) = false ->
+  length (returned s') = length (returned s) ->
+  count_p p sched <= 3 * N.of_nat n + 5.
+Proof. exact solo_bound. Qed.
+
 (* Delivered once, identical: no ring position is delivered twice; every delivered bucket
    is the (position, message) of a Write that returned; every returned message is an
    argument of some producer's Write; and when the written messages are pairwise distinct,
@@ -50,6 +65,15 @@ Proof. exact delivered_once. Qed.
 Theorem C10_order : forall n ps sched, let s := run n ps sched in
   claims s < two64 -> StronglySorted N.lt (map fst (delivered s)).
 Proof. exact order. Qed.
+
+(* ... and the positions at which one producer's Writes took effect increase in the order of
+   its Writes: with C10_order, each producer's messages arrive in its program order.
+   Premise: the written messages are pairwise distinct (they identify the Write). *)
+Theorem C10_program_order : forall n ps sched p l1 m1 l2 m2 l3 s1 s2, let s := run n ps sched in
+  claims s < two64 -> NoDup (concat ps) -> (p < length ps)%nat ->
+  nth p ps [] = l1 ++ m1 :: l2 ++ m2 :: l3 ->
+  In (s1, m1) (returned s) -> In (s2, m2) (returned s) -> s1 < s2.
+Proof. exact program_order. Qed.
 
 (* Alert bound: delivered + reported = read index <= ring positions claimed *)
 Theorem C10_alerts_bounded : forall n ps sched, let s := run n ps sched in
@@ -70,9 +94,22 @@ Example C10_ex_writer_blocked_consumer :
   cons w = CWrite (0, 100) /\ prod_unfinished w 0 = true /\ enabled w (TProd 0) = true.
 Proof. vm_compute. auto. Qed.
 
+Example C10_ex_solo :
+  (* producer 1 paused after its load; producer 0 and the consumer run; the window is non-trivial *)
+  let s := run 1 [[100; 101]; [200]] [P 1; P 1]%nat in
+  let sched := [P 0; C; P 0; C]%nat in
+  Forall (only 0%nat) sched /\ pdone (nth 0 (prods (exec s sched)) (PIdle [])) = false /\
+  length (returned (exec s sched)) = length (returned s) /\ count_p 0 sched = 2.
+Proof.
+  cbv zeta. split; [|vm_compute; auto].
+  repeat (apply Forall_cons; [unfold only; solve [left; reflexivity|right; reflexivity]|]). apply Forall_nil.
+Qed.
+
 Print Assumptions C10_producer_enabled.
 Print Assumptions C10_producer_ignores_consumer.
 Print Assumptions C10_producer_enabled_writer.
+Print Assumptions C10_solo_bound.
 Print Assumptions C10_delivered_once_identical.
 Print Assumptions C10_order.
+Print Assumptions C10_program_order.
 Print Assumptions C10_alerts_bounded.
